@@ -558,7 +558,10 @@ def _c14_chunk(arg):
                 variants = [('prefix', lambda A: A[:len(A) - 1]),
                             ('slice', lambda A: A[1:]),
                             ('reverse', lambda A: A[::-1]),
-                            ('rotate', lambda A: A[1:] + A[:1])]
+                            ('rotate', lambda A: A[1:] + A[:1]),
+                            ('self-assign', lambda A: A),
+                            ('reverse-in-place', lambda A: A[::-1]),
+                            ('pop-in-place', lambda A: A[:len(A) - 1])]
                 name, fn = rng.choice(variants)
                 r.saw((src, k, 'args', name))
                 r.count('op:args-' + name)
@@ -566,6 +569,16 @@ def _c14_chunk(arg):
                 newgroups = fn(groups)
                 if name in ('prefix', 'slice'):
                     node.args = fn(node.args)
+                elif name == 'self-assign':
+                    node.args = node.args
+                elif name == 'reverse-in-place':
+                    own = node.args
+                    own.reverse()
+                    node.args = own
+                elif name == 'pop-in-place':
+                    own = node.args
+                    own.pop()
+                    node.args = own
                 else:
                     na = D.TexArgs(newgroups)
                     node.args = na
